@@ -30,6 +30,12 @@ def run(chk, tier):
         # R07.8 'calls without an applicable pattern fail loudly or fall through as documented': fall-through needs every pattern to have
         # *rejected* the arguments - a pattern that cannot be evaluated (matcher error) is an error, never a rejection
         E.selector_rules(chk, F, cfg, r_scan='R07.8', r_pure='R07.8.pure', r_ord='R07.8.ord', r_bump=None)
+        # R07.10 a call made by a default body through the delegation helper is a call to that very method of the mock: the helper's
+        # hand-written supertrait impls forward to the same trait's same method (an unmentioned `Debug::fmt` must fail, not be answered
+        # by `Display::fmt` patterns) - mock-core configuration
+        if cfg == 'std':
+            from props import c20 as c20_
+            c20_.supertrait_forwarders(chk, load(chk, 'mocks'), 'R07.10', 'mocks')
         # R07.9 'fail loudly': the failure of a call without an applicable pattern is remembered where every clone sees it, on whichever thread
         # it happens, before the panic - a panic that is caught must not leave a mock that verifies green (shared with C08)
         from props import c08 as c08_
